@@ -20,6 +20,7 @@ import (
 	"path/filepath"
 	"sort"
 	"strings"
+	"sync"
 	"testing"
 	"time"
 
@@ -55,6 +56,7 @@ type c25Scenario struct {
 }
 
 type c25Obs struct {
+	mu       sync.Mutex // protects the harness' own observations (contended only in the race pass)
 	dir      string
 	written  []c25Written // appended by W after each WriteChunk returned
 	readErrs []string
@@ -81,29 +83,41 @@ func c25Body(sc c25Scenario, obs *c25Obs) func() {
 			data := append([]byte{}, chk.Bytes()...)
 			ref := cdm.WriteChunk(HeadSeriesRef(seed), int64(seed*100), int64(seed*100+n-1), chk, false, func(err error) {
 				if err != nil {
+					obs.mu.Lock()
 					obs.cbErrs = append(obs.cbErrs, err.Error())
+					obs.mu.Unlock()
 				}
 			})
+			obs.mu.Lock()
 			obs.written = append(obs.written, c25Written{ref, HeadSeriesRef(seed), int64(seed * 100), int64(seed*100 + n - 1), data, n})
+			obs.mu.Unlock()
 		}
 		read := func() {
 			for pass := 0; pass < 2; pass++ {
+				obs.mu.Lock()
 				snapshot := append([]c25Written{}, obs.written...)
+				obs.mu.Unlock()
 				for _, w := range snapshot {
 					c, err := cdm.Chunk(w.ref)
 					seq, _ := w.ref.Unpack()
 					// evaluated AFTER the read returned: a truncation that started while the read was
 					// in progress may legitimately have removed the file
-					truncStarted := obs.truncAt >= 0
+					obs.mu.Lock()
+					truncStarted, truncSeq := obs.truncAt >= 0, obs.truncSeq
+					obs.mu.Unlock()
 					if err != nil {
-						if truncStarted && seq < obs.truncSeq {
+						if truncStarted && seq < truncSeq {
 							continue // its file may legitimately be gone
 						}
+						obs.mu.Lock()
 						obs.readErrs = append(obs.readErrs, fmt.Sprintf("read-error: Chunk(%d:%d) after WriteChunk returned: %v", seq, w.ref, err))
+						obs.mu.Unlock()
 						continue
 					}
 					if !bytes.Equal(c.Bytes(), w.data) {
+						obs.mu.Lock()
 						obs.readErrs = append(obs.readErrs, fmt.Sprintf("read-wrong-bytes: Chunk(seq %d) returned %x, written %x", seq, c.Bytes(), w.data))
+						obs.mu.Unlock()
 					}
 				}
 				vsched.Yield()
@@ -123,13 +137,17 @@ func c25Body(sc c25Scenario, obs *c25Obs) func() {
 			ths = append(ths, vsched.GoNamed("T", func() {
 				// truncate everything below the file of the newest chunk written so far
 				seq := 0
+				obs.mu.Lock()
 				if n := len(obs.written); n > 0 {
 					seq, _ = obs.written[n-1].ref.Unpack()
 				}
 				obs.truncSeq = seq
 				obs.truncAt = len(obs.written)
+				obs.mu.Unlock()
 				if err := cdm.Truncate(uint32(seq)); err != nil {
+					obs.mu.Lock()
 					obs.readErrs = append(obs.readErrs, "truncate-error: "+err.Error())
+					obs.mu.Unlock()
 				}
 			}))
 		}
@@ -297,6 +315,28 @@ func TestVerifC25(t *testing.T) {
 		if sigs[0] != sigs[1] {
 			t.Fatalf("nondeterministic replay %v", sigs)
 		}
+		return
+	}
+	if os.Getenv("VERIF_RACE") == "1" {
+		// Free-running pass under the race detector (sampling, not model checking).
+		iters := vx.Pick(r, 40, 300)
+		n := 0
+		for _, sc := range scs {
+			for i := 0; i < iters && !r.Expired(); i++ {
+				obs := &c25Obs{}
+				c25Body(sc, obs)()
+				n++
+				if sig, msg := c25Eval(sc, vsched.Trace{}, obs); sig != "" {
+					r.Violation("free-running/"+sig, fmt.Sprintf("scenario %s (free-running): %s", sc.Name, msg), map[string]any{"scenario": sc.Name, "free_running": true})
+				}
+				os.RemoveAll(obs.dir)
+			}
+		}
+		r.Count("race_pass_iterations", n)
+		r.Count("states", 1)
+		r.Count("transitions", 1)
+		r.Count("traces_validated_against_impl", 0)
+		r.Sample(map[string]any{"race_pass": "free-running iterations of every scenario under -race", "iterations": n})
 		return
 	}
 	bound := vx.Pick(r, 2, 3)
